@@ -420,7 +420,9 @@ def overloads(ctx):
     p = ctx.program
     want = {'__and__': 'matching.And', '__or__': 'matching.Or', '__invert__': 'matching.Not'}
     n = 0
-    for q in ('matching._Bool', 'matching._MExpr', 'matching._MType', 'matching.And', 'matching.Or'):
+    # every class of the matching module that overloads & | ~ (found, not listed: a new overload
+    # on e.g. Not is held to the same rule)
+    for q in sorted(k for k in p.classes if k.startswith('matching.')):
         c = ctx.cls(q)
         for d, cls in want.items():
             m = c.methods.get(d)
